@@ -42,6 +42,37 @@ def run(prop: str, tier: str) -> int:
         return analysis_error_exit(prop, tier, exc)
 
 
+def _watchdog(prop: str) -> None:
+    """The evaluation of code that left the fragment in an unforeseen way (an endless source consumed whole, a runaway
+    recursion through generators) must end as `analysis broken` (exit 2), not in the kernel's out-of-memory killer."""
+    import threading
+    import time
+    limit_mb = int(os.environ.get("VERIF_MEM_LIMIT_MB", "6000"))
+    limit_s = int(os.environ.get("VERIF_TIME_LIMIT_S", "3000"))
+    t0 = time.time()
+
+    def watch() -> None:
+        page = os.sysconf("SC_PAGE_SIZE")
+        while True:
+            time.sleep(0.5)
+            try:
+                with open("/proc/self/statm", encoding="ascii") as fh:
+                    rss_mb = int(fh.read().split()[1]) * page // (1 << 20)
+            except OSError:
+                return
+            why = None
+            if rss_mb > limit_mb:
+                why = f"memory use {rss_mb} MB exceeds the bound of {limit_mb} MB"
+            elif time.time() - t0 > limit_s:
+                why = f"run time exceeds the bound of {limit_s} s"
+            if why:
+                sys.stdout.write(f"ANALYSIS-ERROR property={prop} RESOURCE {why}: the evaluation does not terminate within "
+                                 f"bounds on this source (no verdict)\n")
+                sys.stdout.flush()
+                os._exit(2)
+    threading.Thread(target=watch, daemon=True, name="watchdog").start()
+
+
 def main() -> int:
     ap = argparse.ArgumentParser(prog="sa")
     ap.add_argument("prop")
@@ -56,6 +87,7 @@ def main() -> int:
     if a.prop == "selftest":
         from .selftest import main as st
         return st()
+    _watchdog(a.prop.upper())
     return run(a.prop.upper(), a.tier)
 
 
